@@ -308,19 +308,21 @@ End RoundTrip.
 Section Progress.
   Context {St : Type}.
   Variable recv : St -> bytes -> result St.
+  Variable Inv : St -> Prop.          (* invariant of the channel state *)
 
-  (* every Recv either consumes input, or is a bare error that leaves the channel in a
-     state where the same bare error is returned again (so the observation stops) *)
-  Definition stuck (st : St) (s : bytes) (e : errkind) : Prop :=
-    exists st', recv st s = Err e st' s /\ recv st' s = Err e st' s.
-
-  Definition progress_ok : Prop := forall st s,
+  (* every Recv (from a state satisfying the invariant) either consumes input, or is a bare
+     error that leaves the channel in a state where the same bare error is returned again
+     (so the observation stops); the invariant is preserved *)
+  Definition progress_ok : Prop := forall st s, Inv st ->
     match recv st s with
-    | Ok _ _ rest => (length rest < length s)%nat
+    | Ok _ st' rest => Inv st' /\ (length rest < length s)%nat
     | OkWithErr r e st' rest =>
-        (length rest < length s)%nat \/ (r = [] /\ rest = s /\ recv st' s = OkWithErr r e st' s)
+        Inv st' /\
+        ((length rest < length s)%nat \/ (r = [] /\ rest = s /\ recv st' s = OkWithErr r e st' s))
     | Err e st' rest =>
-        (length rest < length s)%nat \/ (rest = s /\ exists st'', recv st' s = Err e st'' s /\ recv st'' s = Err e st'' s)
+        Inv st' /\
+        ((length rest < length s)%nat \/
+         (rest = s /\ exists st'', Inv st'' /\ recv st' s = Err e st'' s /\ recv st'' s = Err e st'' s))
     | Crash _ => False
     | OutOfFuel => False
     end.
@@ -338,30 +340,32 @@ Section Progress.
 
   (* a state reached right after a non-consuming bare error e: the next call repeats it *)
   Lemma recv_all_loop_clean : forall fuel prev st s,
-    (length s + 2 <= fuel)%nat \/
+    (Inv st /\ (length s + 2 <= fuel)%nat) \/
       ((1 <= fuel)%nat /\ exists e, prev = Some (IErr e) /\
          ((exists st'', recv st s = Err e st'' s) \/ recv st s = OkWithErr [] e st s)) ->
     clean (recv_all_loop recv fuel prev st s).
   Proof.
     induction fuel as [|f IH]; intros prev st s Hf.
-    - exfalso. destruct Hf as [Hf|[Hf _]]; lia.
-    - cbn [recv_all_loop]. destruct Hf as [Hf|[_ [e [-> Hrep]]]].
-      + pose proof (H st s) as P. destruct (recv st s) as [r st' rest|r e st' rest|e st' rest|c|] eqn:E; try contradiction.
-        * apply clean_cons; auto. apply IH. left. lia.
-        * destruct (same_as_prev prev (item_of_recerr r e)); [apply clean_nil|].
+    - exfalso. destruct Hf as [[_ Hf]|[Hf _]]; lia.
+    - cbn [recv_all_loop]. destruct Hf as [[Hi Hf]|[_ [e [-> Hrep]]]].
+      + pose proof (H st s Hi) as P. destruct (recv st s) as [r st' rest|r e st' rest|e st' rest|c|] eqn:E; try contradiction.
+        * destruct P as [Hi' P]. apply clean_cons; auto. apply IH. left. split; auto. lia.
+        * destruct P as [Hi' P].
+          destruct (same_as_prev prev (item_of_recerr r e)); [apply clean_nil|].
           apply clean_cons; [destruct r; exact I|].
           destruct P as [P|[-> [-> P]]].
-          -- apply IH. left. lia.
+          -- apply IH. left. split; auto. lia.
           -- apply IH. right. split; [lia|]. exists e. split; auto.
-        * destruct (same_as_prev prev (IErr e)); [apply clean_nil|].
+        * destruct P as [Hi' P].
+          destruct (same_as_prev prev (IErr e)); [apply clean_nil|].
           apply clean_cons; auto.
-          destruct P as [P|[-> [st'' [P1 P2]]]].
-          -- apply IH. left. lia.
+          destruct P as [P|[-> [st'' [Hi'' [P1 P2]]]]].
+          -- apply IH. left. split; auto. lia.
           -- apply IH. right. split; [lia|]. exists e. split; auto. left. eauto.
       + destruct Hrep as [[st'' E]|E]; rewrite E; cbn [item_of_recerr same_as_prev];
           rewrite item_eqb_refl; apply clean_nil.
   Qed.
 
-  Lemma recv_all_clean st s : clean (recv_all_from recv st s).
-  Proof. unfold recv_all_from. apply recv_all_loop_clean. left. lia. Qed.
+  Lemma recv_all_clean st s : Inv st -> clean (recv_all_from recv st s).
+  Proof. intros Hi. unfold recv_all_from. apply recv_all_loop_clean. left. split; auto. lia. Qed.
 End Progress.
